@@ -56,7 +56,38 @@ def r2(ctx):
     # who-may-construct Board
     cons = k2.constructors_of(P, MG + "Board")
     allowed = {MG + "Board::builder", MG + "Board::standard", MG + "fen::parse_fen"}
-    extra = sorted(set(cons) - allowed)
+    def can_leak(k):
+        """the function returns a Board (or something containing one) or can store one through a `&mut` parameter"""
+        b_ = P.fns[k]
+        rt = b_["locals"][0]["ty"]
+        outs = [rt] + [l["ty"] for l in b_["locals"][1:b_["argc"] + 1] if l["ty"].startswith("&mut")]
+        return any("chess_movegen::Board" in ty_ for ty_ in outs)
+    from analysis.facts import walk_operands
+
+    def literal_escapes(k):
+        """a Board literal built in `k` flows to the return value, through a `&mut` parameter, or by value into a call"""
+        b_ = P.fns[k]
+        lits = {s["p"]["l"] for blk in b_["blocks"] for s in blk["s"] if s["k"] == "assign" and s.get("r", {}).get("k") == "agg" and s["r"].get("adt") == MG + "Board" and not s["p"]["pj"]}
+        mut_params = {i + 1 for i in range(b_["argc"]) if b_["locals"][i + 1]["ty"].startswith("&mut")}
+        tainted = set(lits)
+        for _ in range(4):
+            for blk in b_["blocks"]:
+                for s in blk["s"]:
+                    if s["k"] != "assign":
+                        continue
+                    uses = {o["p"]["l"] for o in walk_operands(s) if o.get("k") in ("copy", "move")}
+                    if s.get("r", {}).get("k") == "ref" and s["r"].get("bk") == "mut" and s["r"]["p"]["l"] in tainted:
+                        uses.add(s["r"]["p"]["l"])
+                    if uses & tainted:
+                        if s["p"]["l"] == 0 or (s["p"]["l"] in mut_params and s["p"]["pj"]):
+                            return True
+                        if not s["p"]["pj"]:
+                            tainted.add(s["p"]["l"])
+                t_ = blk["t"]
+                if t_["k"] == "call" and any(a.get("k") in ("copy", "move") and a["p"]["l"] in tainted for a in t_["a"]):
+                    return True
+        return False
+    extra = sorted(k for k in set(cons) - allowed if can_leak(k) and literal_escapes(k))
     ctx.ob("who-may-construct Board", not extra, f"Board literals are built in {extra} besides builder(), standard() and parse_fen", sample=sorted(cons))
 
 
@@ -78,14 +109,7 @@ def r3(ctx):
         for t, v in conds:
             if t[0] == "app" and t[1] == HAS_KINGS and v == 1 and t[2][0] == ("refv", ("field", slf, "raw")):
                 have["kings"] = True
-            th = T.threshold(t, v)
-            if th:
-                x, k, ge = th
-                x = strip_casts(x)
-                if x[0] == "count_ones" and x[1][0] == "field" and x[1][1][0] == "index" and x[1][1][1] == ("field", ("field", slf, "raw"), "colors") and T.is_const(x[1][1][2]):
-                    which = "count_white" if x[1][1][2][1] == W else "count_black" if x[1][1][2][1] == B else None
-                    if which and not ge:
-                        have[which] = k - 1      # accepted maximum
+            pass
             if t == ("discr", ("app", V_EP, (("refv", slf),))) and v == "Ok":
                 have["ep"] = True
             if t == ("discr", ("app", V_CR, (("refv", slf),))) and v == "Ok":
@@ -96,9 +120,31 @@ def r3(ctx):
                 b_arg = t[2][0]
                 b_val = b_arg[1] if b_arg[0] == "refv" else b_arg
                 same_board = b_val[0] == "upd" and b_val[1] == slf and len(b_val[2]) == 1 and b_val[2][0][2] == "turn" and b_val[3] == cadt(COLOR, opp)
+                if b_val[0] == "adt" and b_val[1] == MG + "Board":
+                    # `Board { turn: !self.turn, ..*self }`: every other field is this board's own
+                    names = [f["name"] for f in P.adt(MG + "Board")["variants"][0]["fields"]]
+                    same_board = len(names) == len(b_val[3]) and all(
+                        (fv == cadt(COLOR, opp)) if nm == "turn" else (fv == ("field", slf, nm)) for nm, fv in zip(names, b_val[3]))
                 k_arg = t[2][1]
                 king_ok = k_arg[0] == "app" and k_arg[1] == KING_SQ and k_arg[2][1] == cadt(COLOR, opp)
                 have["opp_check"] = same_board and king_ok
+        # piece-count bound, decided by evaluating the path's conditions on the two counts for every (white, black) in 0..=20 x 0..=20
+        cnt = lambda cd: ("count_ones", ("field", ("index", ("field", ("field", slf, "raw"), "colors"), T.I(cd, "usize")), "0"))
+        cw_t, cb_t = cnt(W), cnt(B)
+        rel = [c for c in conds if c[0][0] != "assert" and any(s_ in (cw_t, cb_t) for s_ in subterms(c[0]))]
+        acc = set()
+        for cw in range(21):
+            for cb in range(21):
+                env = {cw_t: T.I(cw, "u32"), cb_t: T.I(cb, "u32")}
+                hs = [T.cond_holds(eng, c, env) for c in rel]
+                if any(h is None for h in hs):
+                    raise AnchorError("validate(): a condition on the piece counts cannot be evaluated")
+                if all(hs):
+                    acc.add((cw, cb))
+        have["count_white"] = max((a for a, _ in acc), default=None) if rel else None
+        have["count_black"] = max((b for _, b in acc), default=None) if rel else None
+        if rel and acc != {(a, b) for a in range(17) for b in range(17)}:
+            have["count_white"] = have["count_white"] if have["count_white"] != 16 else "16 but not independently of Black's count"
         label = f"accept[{turn}]#{i}"
         ctx.ob(f"{label} kings", have["kings"], "validate() can accept a board without checking has_kings()", site=site)
         ctx.ob(f"{label} piece count white", have["count_white"] == 16, f"validate() accepts up to {have['count_white']} white pieces (no bound if None); the move list assumes at most 16", site=site,
